@@ -3,7 +3,10 @@ package engines
 import (
 	"archive/tar"
 	"bytes"
+	"encoding/base64"
+	"encoding/hex"
 	"fmt"
+	"time"
 	"io"
 	"io/fs"
 	"os"
@@ -14,6 +17,7 @@ import (
 	"github.com/pojntfx/stfs/pkg/recovery"
 	"github.com/pojntfx/stfs/pkg/zzverif/vsync"
 	"stfsmc/model"
+	"stfsmc/ops"
 	"stfsmc/rig"
 )
 
@@ -180,7 +184,7 @@ func (c *stepCtx) oracleC07() {
 	if herr != nil || ierr != nil {
 		return // C01's business
 	}
-	refTree := rig.Walk(ref.FS, "/")
+	refTree := rig.Walk(ref.AFS, "/")
 	vsync.Quiesce()
 	ref.Close()
 	js := []int{0, n - 1, n}
@@ -247,7 +251,8 @@ func (c *stepCtx) oracleC07() {
 			continue
 		}
 		_ = rest
-		t1 := rig.Walk(st.FS, "/")
+		st.ComposeFromIndex()
+		t1 := rig.Walk(st.AFS, "/")
 		vsync.Quiesce()
 		if shape, detail := diffTrees(t1, refTree, true, roleOf); len(shape) > 0 {
 			c.viol("C07", fmt.Sprintf("C07|diverges-from-rebuild|j=%s|%s", jclass(j, n), strings.Join(shape, ",")),
@@ -261,7 +266,7 @@ func (c *stepCtx) oracleC07() {
 			st.Close()
 			continue
 		}
-		t2 := rig.Walk(st.FS, "/")
+		t2 := rig.Walk(st.AFS, "/")
 		vsync.Quiesce()
 		rows2, _ := rig.DumpIndex(st.Index)
 		if shape, detail := diffTrees(t2, t1, true, roleOf); len(shape) > 0 {
@@ -300,7 +305,129 @@ func recKinds(s rig.ScanResult) []string {
 	return out
 }
 
-func (c *stepCtx) oracleC09() {}
+// Marker is embedded in every name component, content and link target of the C09 alphabet. '~' is outside the base64
+// alphabet, so the marker cannot occur by chance in the armoured wrapper.
+const Marker = "MK~q7Zt~9fXw~2LpA~c0de"
+
+func c09Needles() map[string][]byte {
+	n := map[string][]byte{}
+	add := func(name string, raw []byte) {
+		n[name+"/raw"] = raw
+		n[name+"/hex"] = []byte(hex.EncodeToString(raw))
+		for shift := 0; shift < 3; shift++ {
+			// base64 of the marker at each of the three alignments (drop the characters that depend on neighbours)
+			padded := append(bytes.Repeat([]byte{'A'}, shift), raw...)
+			enc := base64.StdEncoding.EncodeToString(padded)
+			lo := (shift*8 + 5) / 6
+			hi := len(enc) - 4
+			if hi > lo+8 {
+				n[fmt.Sprintf("%s/base64-%d", name, shift)] = []byte(enc[lo:hi])
+			}
+		}
+	}
+	add("marker", []byte(Marker))
+	for _, lit := range []string{"STFS.Action", "STFS.ReplacesName", "STFS.ReplacesContent", "STFS.UncompressedSize", "STFS.Signature", "STFS.Version"} {
+		n["literal/"+lit] = []byte(lit)
+	}
+	n["uid/decimal"] = []byte(fmt.Sprint(ops.ChownUID))
+	n["gid/decimal"] = []byte(fmt.Sprint(ops.ChownGID))
+	n["uid/octal"] = []byte(fmt.Sprintf("%o", ops.ChownUID))
+	n["gid/octal"] = []byte(fmt.Sprintf("%o", ops.ChownGID))
+	for nm, t := range map[string]time.Time{"atime": ops.T1, "mtime": ops.T2} {
+		n[nm+"/unix"] = []byte(fmt.Sprint(t.Unix()))
+		n[nm+"/octal"] = []byte(fmt.Sprintf("%o", t.Unix()))
+		n[nm+"/rfc3339"] = []byte(t.Format("2006-01-02T15:04:05"))
+	}
+	return n
+}
+
+var needles = c09Needles()
+
+// oracleC09: with encryption on, the tape reveals nothing but record sizes and the fixed wrapper.
+func (c *stepCtx) oracleC09() {
+	if c.st.Cfg.Encryption == "" {
+		return
+	}
+	T := c.postTape
+	names := make([]string, 0, len(needles))
+	for k := range needles {
+		names = append(names, k)
+	}
+	sort.Strings(names)
+	for _, k := range names {
+		if i := bytes.Index(T, needles[k]); i >= 0 {
+			where := "trailer"
+			for _, r := range c.scan.Recs {
+				if int64(i) >= r.Off && int64(i) < r.End {
+					where = cutPart(r, int64(i))
+				}
+			}
+			c.viol("C09", fmt.Sprintf("C09|cleartext|%s|in=%s|after=%s", k, where, c.op.K), fmt.Sprintf("history: %s\nthe raw tape contains %q (%s) at byte %d (%s)", c.hist(), needles[k], k, i, where))
+		}
+	}
+	// the outer tar headers carry nothing but the size and the fixed wrapper key
+	for i, r := range c.scan.Recs {
+		h := T[r.HdrOff : r.HdrOff+512]
+		fields := map[string][]byte{"mode": h[100:108], "uid": h[108:116], "gid": h[116:124], "mtime": h[136:148]}
+		if nm := strings.TrimRight(string(h[0:100]), "\x00"); nm != "" {
+			c.viol("C09", "C09|outer-header|name", fmt.Sprintf("history: %s\nrecord %d: the outer header has the name %q", c.hist(), i, nm))
+		}
+		if ln := strings.TrimRight(string(h[157:257]), "\x00"); ln != "" {
+			c.viol("C09", "C09|outer-header|linkname", fmt.Sprintf("history: %s\nrecord %d: the outer header has the link name %q", c.hist(), i, ln))
+		}
+		for fname, f := range fields {
+			if octalField(f) != 0 {
+				c.viol("C09", "C09|outer-header|"+fname, fmt.Sprintf("history: %s\nrecord %d: the outer header field %s is %q", c.hist(), i, fname, f))
+			}
+		}
+		for k := range r.Pax {
+			if k != "STFS.EmbeddedHeader" && k != "size" {
+				c.viol("C09", "C09|outer-header|pax-key="+k, fmt.Sprintf("history: %s\nrecord %d: the outer header carries the PAX record %s=%q", c.hist(), i, k, r.Pax[k]))
+			}
+		}
+		if un := strings.TrimRight(string(h[265:297]), "\x00"); un != "" {
+			c.viol("C09", "C09|outer-header|uname", fmt.Sprintf("history: %s\nrecord %d: the outer header has the user name %q", c.hist(), i, un))
+		}
+	}
+	// neither a rebuild nor a restore succeeds with a different private key
+	cfg2 := c.st.Cfg
+	cfg2.KeySet = 1
+	dir := c.env.TempDir()
+	if err := CopyFile(c.st.Drive, dir+"/drive.tar"); err != nil {
+		return
+	}
+	other, err := rig.NewStack(dir, cfg2, c.env.Keys)
+	if err != nil {
+		return
+	}
+	defer other.Close()
+	ierr := IndexInto(other, true)
+	vsync.Quiesce()
+	rows, _ := rig.DumpIndex(other.Index)
+	if ierr == nil && len(rows) > 0 {
+		c.viol("C09", "C09|rebuild-with-other-key-succeeds", fmt.Sprintf("history: %s\nrebuilding the index with an unrelated private key returned no error and produced %d rows", c.hist(), len(rows)))
+	}
+	for _, row := range c.liveRows {
+		if row.Deleted == 1 {
+			continue
+		}
+		data, _, ferr := fetchAt(other, row.Record, row.Block)
+		vsync.Quiesce()
+		if ferr == nil {
+			c.viol("C09", "C09|restore-with-other-key-succeeds|typeflag="+fmt.Sprint(row.Typeflag), fmt.Sprintf("history: %s\nfetching %s at (%d,%d) with an unrelated private key succeeded (%d bytes)", c.hist(), row.Name, row.Record, row.Block, len(data)))
+		}
+	}
+}
+
+func octalField(b []byte) int64 {
+	var v int64
+	for _, ch := range b {
+		if ch >= '0' && ch <= '7' {
+			v = v*8 + int64(ch-'0')
+		}
+	}
+	return v
+}
 
 // oracleC12: recursive remove / rename touch exactly the named subtree (live tree and rebuilt tree vs reference).
 func (c *stepCtx) oracleC12() {
@@ -334,7 +461,7 @@ func (c *stepCtx) oracleC12() {
 		return
 	}
 	if c.rebuilt != nil {
-		t := rig.Walk(c.rebuilt.FS, "/")
+		t := rig.Walk(c.rebuilt.AFS, "/")
 		vsync.Quiesce()
 		if shape, detail := diffTrees(t, modelTree(c.m), false, roleOf); len(shape) > 0 {
 			c.viol("C12", fmt.Sprintf("C12|rebuilt-state|%s|%s|%s", c.shape, strings.Join(shape, ","), like(detail)),
